@@ -37,6 +37,9 @@ pub struct StreamPlan {
     pub window: usize,
     pub short_writes: bool,
     pub start_ms: u64,
+    /// Some(n): this client goes away (connection error) after having read n bytes; nothing is asserted about its own stream
+    #[serde(default)]
+    pub abort_after: Option<usize>,
 }
 #[derive(Clone, Debug, Serialize, Deserialize)]
 pub struct Scenario {
@@ -86,7 +89,8 @@ fn gen_plan(_i: usize) -> StreamPlan {
     if (total / read_max.min(window).max(1)) as u64 * read_pause_ms > 8_000 {
         read_pause_ms = 0;
     }
-    StreamPlan { kind: t::draw(3) as u8, steps, read_max, read_pause_ms, window, short_writes: t::chance(1, 3), start_ms: t::pick(&[0u64, 0, 1, 30]) }
+    let abort_after = if _i > 0 && t::chance(1, 6) { Some(t::pick(&[0usize, 1, 60, 150, 400])) } else { None };
+    StreamPlan { kind: t::draw(3) as u8, steps, read_max, read_pause_ms, window, short_writes: t::chance(1, 3), start_ms: t::pick(&[0u64, 0, 1, 30]), abort_after }
 }
 
 pub fn generate(_cfg: &RunCfg, _out: &mut Outcome) -> Scenario {
@@ -312,6 +316,19 @@ fn execute(sc: &Scenario, out: &mut Outcome) {
             let cfg = ConnCfg { short_writes: pl.short_writes, window: pl.window, ..ConnCfg::default() };
             let Ok(mut c) = Client::connect(rt::ADDR, cfg).await else { return };
             c.send(format!("GET /sse HTTP/1.1\r\nHost: s\r\nx-plan: {i}\r\n\r\n").as_bytes(), 0);
+            if let Some(n) = pl.abort_after {
+                // fault: the peer disappears in the middle of the stream
+                while c.received.len() < n {
+                    match c.fill(64, DEFAULT_TIMEOUT).await {
+                        crate::client::ReadOutcome::Data(_) => {}
+                        _ => break,
+                    }
+                }
+                c.send_rst(std::io::ErrorKind::ConnectionReset, 0);
+                simcore::with(|w| w.count("fault.client_aborts_mid_stream"));
+                simcore::sleep(MS).await;
+                return;
+            }
             let r = c.recv_paced(false, DEFAULT_TIMEOUT, pl.read_max, pl.read_pause_ms * MS).await;
             let ok = r.is_ok();
             o.borrow_mut().first = Some(r);
@@ -359,6 +376,9 @@ fn execute(sc: &Scenario, out: &mut Outcome) {
             }
             None => continue,
         };
+        if pl.abort_after.is_some() {
+            continue;
+        }
         if r.status != 200 {
             out.violate("stream-headers", format!("status-{}", r.status), format!("{ctx}: status {}", r.status));
             return;
